@@ -162,6 +162,13 @@ fn fs_session(rng: &mut StdRng, cli: &str, work: &str, id: &str) -> Value {
     std::fs::write(format!("{}/a.adf", dir), &ta).unwrap();
     std::fs::write(format!("{}/b.adf", dir), &tb).unwrap();
     std::fs::write(format!("{}/note.txt", dir), "not an adf, not a state\n").unwrap();
+    // bystanders next to the names exports will go to: whatever scratch / backup name an implementation may derive from the
+    // requested path, a file that already lives there is not the CLI's to touch
+    for (k, by) in ["s1.tmp", "s1.bak", "s1.part", "s1.new", "s1.old", "s1.json~", "s1.json.tmp", ".s1.json.swp", "s2.tmp", "s2.json.tmp", "s2.bak", "s1.json.lock"].iter().enumerate() {
+        if rng.gen_range(0..3) > 0 {
+            std::fs::write(format!("{}/{}", dir, by), format!("bystander {}\n", k)).unwrap();
+        }
+    }
     let run = |args: &[String]| -> (i32, Vec<String>) {
         match std::process::Command::new(cli).args(args).current_dir(&dir).env_remove("RUST_LOG").env("RUST_BACKTRACE", "0").output() {
             Ok(o) => (o.status.code().unwrap_or(-1), String::from_utf8_lossy(&o.stdout).lines().map(|s| s.to_string()).collect()),
@@ -188,7 +195,7 @@ fn fs_session(rng: &mut StdRng, cli: &str, work: &str, id: &str) -> Value {
         refs.insert(src.to_string(), json!(run(&a).1));
     }
     let init = snapshot(&dir);
-    let names = ["s1.json", "s2.json", "s1", "s1.json.bak", "note.txt", "a.adf", "b.adf"];
+    let names = ["s1.json", "s2.json", "s1", "s1.json.bak", "note.txt", "a.adf", "b.adf", "s1.tmp", "s2"];
     let mut steps: Vec<Value> = Vec::new();
     for _ in 0..rng.gen_range(4..=8) {
         let existing: Vec<String> = std::fs::read_dir(&dir).map(|rd| rd.flatten().map(|e| e.file_name().to_string_lossy().to_string()).collect()).unwrap_or_default();
@@ -238,7 +245,7 @@ pub fn main(args: &[String]) {
     let libs = ["naive", "biodivine", "hybrid"];
     let sorts = ["none", "lx", "an"];
     let mut jobs: Vec<Job> = Vec::new();
-    let nadf = if tier == "thorough" { 220 } else { 36 };
+    let nadf = if tier == "thorough" { 220 } else if tier == "feat" { 8 } else { 36 };
     let mut flagsets: Vec<Vec<&'static str>> = Vec::new();
     for f in FLAGS { flagsets.push(vec![f]); }
     for a in 0..FLAGS.len() { for b in (a + 1)..FLAGS.len() { flagsets.push(vec![FLAGS[a], FLAGS[b]]); } }
@@ -299,13 +306,13 @@ pub fn main(args: &[String]) {
         writeln!(f, "{}", v).unwrap();
     }
     // C14: export / import / no-overwrite
-    let np = if tier == "thorough" { 60 } else { 10 };
+    let np = if tier == "thorough" { 60 } else if tier == "feat" { 6 } else { 10 };
     for k in 0..np {
         let n = rng.gen_range(1..=5);
         let case = rand_adf(&mut rng, n, format!("p{}", k));
         writeln!(f, "{}", persist_job(&cli, &work, &format!("p{}", k), &case.text())).unwrap();
     }
-    let nfs = if tier == "thorough" { 150 } else { 30 };
+    let nfs = if tier == "thorough" { 150 } else if tier == "feat" { 10 } else { 30 };
     for k in 0..nfs {
         writeln!(f, "{}", fs_session(&mut rng, &cli, &work, &format!("f{}", k))).unwrap();
     }
